@@ -92,7 +92,7 @@ def run(ctx):
                        "link EEXIST, open EEXIST, appended to an existing file, number of SIGHUPs)")
     for k in ("published", "not_owed_checked", "fins", "fsyncs", "files_inspected", "gzip_files_with_torn_tail", "stops",
               "exit_codes", "kill_point_runs", "kill_point_fired", "kill_point_pcs_fired", "runs_with_rotation",
-              "tool_fatal_exits", "runs_with_link_eexist", "runs_with_open_eexist", "runs_appending_to_existing_file", "stuck_after_stop",
+              "tool_fatal_exits", "runs_with_restart", "runs_with_link_eexist", "runs_with_open_eexist", "runs_appending_to_existing_file", "stuck_after_stop",
               "trace_events"):
         ctx.notes[k] = R.get(k)
     for s in (R.get("samples") or [])[:4]:
